@@ -211,7 +211,22 @@ def r2_num_out(ctx, nf) -> None:
 
 def _port_key(p, pp):
     """(class, offset) a returning path of port_kind(port) is taken for: from the isinstance / offset tests on the path"""
-    cls = [u(t.args[1]) for t, k in p.tests if k and isinstance(t, ast.Call) and u(t.func) == "isinstance" and len(t.args) == 2 and u(t.args[0]) == pp]
+    # the classes the port can still have: isinstance tests taken narrow {InPort, OutPort}, tests refused remove their classes
+    dom = {"InPort", "OutPort"}
+
+    def members(e):
+        if isinstance(e, ast.BinOp) and isinstance(e.op, ast.BitOr):
+            return members(e.left) | members(e.right)
+        if isinstance(e, ast.Tuple):
+            return set().union(*[members(x) for x in e.elts])
+        return {u(e).split(".")[-1]}
+    narrowed = False
+    for t, k in p.tests:
+        if isinstance(t, ast.Call) and u(t.func) == "isinstance" and len(t.args) == 2 and u(t.args[0]) == pp:
+            ms = members(t.args[1])
+            dom = (dom & ms) if k else (dom - ms)
+            narrowed = True
+    cls = [sorted(dom)[0]] if narrowed and len(dom) == 1 else []
     off = [u(t.comparators[0]) for t, k in p.tests if k and isinstance(t, ast.Compare) and isinstance(t.ops[0], ast.Eq) and u(t.left) == f"{pp}.offset"]
     off += [u(t.left) for t, k in p.tests if k and isinstance(t, ast.Compare) and isinstance(t.ops[0], ast.Eq) and u(t.comparators[0]) == f"{pp}.offset"]
     return f"{cls[-1] if cls else '?'}(_, {off[-1] if off else '?'})"
